@@ -189,11 +189,16 @@ class DataType(metaclass=_DataTypeMeta):
     def _stream_read(cls, stream: BytesIO, size: int):
         """
         Reads `size` bytes from `stream`.
-        Raises `BufferEmptyError` if stream returns no data.
+        Raises `BufferEmptyError` if stream returns no data and
+        `DataError` if it returns fewer bytes than requested.
         """
         data = stream.read(size)
         if not data:
             raise BufferEmptyError()
+        if 0 <= size != len(data):
+            raise DataError(
+                f"Not enough data, expected {size} bytes but only {len(data)} remain"
+            )
         return data
 
     def __repr__(self) -> str:
